@@ -476,7 +476,7 @@ func init() {
 		Prop: "C03", Level: "model_checking", Exhaust: true, QuickSecs: 500, ThorSecs: 3000,
 		Rule: "A (generic): every sentence of the E-lr corpora the reference LR driver accepts (rules, 2-paths; thorough: nullable combinations, 3-paths) under every version of its family, and every token replaced by every alternative lexeme (letter case, cast spellings, synonyms => the very same tree; literal forms => the same node kinds): zero errors, every token's text allowed by the slot vocabulary for the (kind, slot) holding it. " +
 			"B (operators): every flat expression with <= 3 (thorough 4) operators over 28 binary, 14 assignment, 18 prefix operators, ++/--, both ternaries and instanceof, distinct atoms, under 7.4 and 5.6: the tree must equal the one an independent precedence-climbing model of the PHP manual's operator table gives, and expressions the model rejects (non-associative chains) must be rejected. " +
-			"B2: every postfix chain of <= 4 (thorough 5) operations (property, method call, offsets, call, static members) on a variable and on a name: accepted iff the reference LR driver accepts it, and under PHP 7 the tree of a chain on a variable is the left-to-right fold. C: hand-written construct schemas (source => expected kind(role:child) rendering) for the constructs whose roles can be confused; D: every if/else nesting without braces to depth 3 (thorough 4) — else belongs to the nearest if; E: literal forms (int/float classification at the overflow boundary, radix prefixes, separators, strings, heredoc/nowdoc parts verbatim); F: version-gated constructs under 10 versions. " +
+			"B2: every postfix chain of <= 5 (thorough 6) operations (property, method call, offsets, call, static members) on a variable and on a name: accepted iff the reference LR driver accepts it, and under PHP 7 the tree of a chain on a variable is the left-to-right fold. C: hand-written construct schemas (source => expected kind(role:child) rendering) for the constructs whose roles can be confused; D: every if/else nesting without braces to depth 3 (thorough 4) — else belongs to the nearest if; E: literal forms (int/float classification at the overflow boundary, radix prefixes, separators, strings, heredoc/nowdoc parts verbatim); F: version-gated constructs under 10 versions. " +
 			"states = flat expressions enumerated and judged by the operator model, transitions = model verdicts (accept/reject/expected tree) replayed on the real parser, traces = corpus sentences classified by the reference LR driver and replayed. non-trivial = program parsed; distinct by (version, expectation, source)",
 		Assume: []string{"M-syn (mc/synm) transcribes the PHP manual: operator table, construct shapes, literal forms, version gating"},
 		Run:    c03Run,
@@ -540,9 +540,9 @@ func chainSX(ch corpus.Chain) string {
 // c03Chains: postfix chains — validity from the reference LR driver (both families); for PHP 7 chains on a
 // variable the expected tree is the left-to-right fold.
 func c03Chains(c *core.Ctx) {
-	n := 4
+	n := 5
 	if c.Thorough() {
-		n = 5
+		n = 6
 	}
 	f7, f5 := corpus.MustFam("php7"), corpus.MustFam("php5")
 	for _, ch := range corpus.ChainExprs(n) {
@@ -563,10 +563,26 @@ func c03Chains(c *core.Ctx) {
 			case f == f7 && ch.Base == "$a":
 				cs.Aux = "sx:" + chainSX(ch)
 				cs.Why = "postfix chain (left-to-right fold)"
+			case f == f5 && ch.Base == "$a" && php5Fold(ch):
+				// property fetches, method calls, offsets and calls on a plain variable apply left to right in
+				// PHP 5 as well (the differences of uniform variable syntax need `$$`, `->$p[`, or `::`)
+				cs.Aux = "sx:" + chainSX(ch)
+				cs.Why = "postfix chain (left-to-right fold)"
 			default:
 				cs.Aux = "valid"
 			}
 			c03One(c, cs)
 		}
 	}
+}
+
+func php5Fold(ch corpus.Chain) bool {
+	for _, o := range ch.Ops {
+		switch o.Kind {
+		case "prop", "method", "dim", "dimc", "call":
+		default:
+			return false
+		}
+	}
+	return true
 }
